@@ -43,11 +43,11 @@ PROPS = {
             "technique": "Lean 4 proof: cover / no-overspend / not-from-the-future on the engine model, closed-form failure criterion (Feasible) on the spec",
             "text": "Theorems cover_and_no_overspend and succeeds_iff_feasible hold for every history and method; correspondence on the engine stream incl. the exhausted status.",
             "design_ref": "DESIGN.md §3 C02"},
-    "C03": {"streams": [S("engine", 1500, 80000, ["fractions", "types"]), S("pipeline", 600, 30000, ["types", "fractions", "status-engine", "status-crash"])], "rule": ENGINE_RULE, "assumptions": [],
+    "C03": {"streams": [S("engine", 1500, 80000, ["fractions", "types"]), S("pipeline", 600, 30000, ["types", "fractions", "status-engine", "status-crash"]), S("cli", 30, 1000, ["exit", "detail", "model"])], "rule": ENGINE_RULE + "; " + CLI_RULE, "assumptions": [],
             "technique": "Lean 4 proof: taxable events are a permutation of earn-IN + OUT + fee-INTRA; each event once and in full; regenerated type table; is_taxable / is_earning bodies translated from the source on every run = the filters of the model's taxableEvents",
             "text": "Theorems events_exact / events_perm / each_once_in_full; tie by Gen.Types and the engine + pipeline streams.",
             "design_ref": "DESIGN.md §3 C03"},
-    "C04": {"streams": [S("pipeline", 1200, 60000, ["figures", "status-crash"]), S("dec", 4000, 400000, ["value", "status"]), S("parser", 300, 15000, ["fields"])], "rule": PIPE_RULE, "assumptions": [],
+    "C04": {"streams": [S("pipeline", 1200, 60000, ["figures", "status-crash"]), S("dec", 4000, 400000, ["value", "status"]), S("parser", 300, 15000, ["fields"]), S("reports", 30, 1500, ["detail", "status"])], "rule": PIPE_RULE + "; reports stream for C04: Proceeds / Cost Basis / Gain cells (hyperlink payloads included) of the real rp2_full_report.ods", "assumptions": [],
             "technique": "Lean 4: formulas stated outright on the bit-exact 31-digit decimal model and proved equal to the Python bodies translated from the source on every run (getters and the three constructors), exactness of decimal arithmetic on the 1e-11 grid, exact parts-add-to-whole, rounding-error lemmas; bit-exact differential correspondence of every figure",
             "text": "Theorems proceeds/cost/gain formulas, supplied-over-computed, parts_add_to_whole (exact), two_roundings_bound, round_half_even_err; "
                     "every proceeds/cost/gain figure of generated histories is compared with the model as an exact rational, and with exact Fraction arithmetic by the oracle.",
@@ -63,7 +63,7 @@ PROPS = {
             "technique": "Lean 4 proof: insertion-ordered group-by yields one line per key, each the in-order sum of exactly its fractions; correspondence of yearly lines",
             "text": "Theorem lines_are_sums (group_spec); yearly lines of the real ComputedData compared with the model and with an independent group-by oracle.",
             "design_ref": "DESIGN.md §3 C06"},
-    "C07": {"streams": [S("pipeline", 1200, 60000, ["balances", "status-balance", "status-crash"]), S("reports", 40, 2000, ["taxsheet", "status"])], "rule": PIPE_RULE,
+    "C07": {"streams": [S("pipeline", 1200, 60000, ["balances", "status-balance", "status-crash"]), S("reports", 40, 2000, ["taxsheet", "inout", "status"])], "rule": PIPE_RULE + "; C07 reports stream: the Account Balances table and the In-Flow rows (Sent/Sold percentage) of the real file",
             "assumptions": ["hypotheses LocalDatesMonotone (F6), OutWithFeeConsistent, FeeFiatVisible (F12)"],
             "technique": "Lean 4 proof: balance after any prefix = initial + acquired + received - sent per account; correspondence of BalanceSet; reconciliation oracle",
             "text": "Theorem final_is_flows for every transaction list and account; balances of the real BalanceSet compared with the model; oracle recomputes flows and lot reconciliation.",
@@ -73,7 +73,7 @@ PROPS = {
             "technique": "Lean 4 proof: replay fails iff some account is below tolerance after some chronological prefix (checking only debited accounts suffices); -n never rejects",
             "text": "Theorems rejected_iff_some_prefix_overdrawn and allowed_never_rejects; overdrawn status and account compared with the model; brute-force prefix oracle.",
             "design_ref": "DESIGN.md §3 C08"},
-    "C09": {"streams": [S("pipeline", 800, 40000, ["fractions", "figures", "long", "numbering", "yearly", "balances", "price", "sums", "status-engine", "status-crash"])], "rule": PIPE_RULE,
+    "C09": {"streams": [S("pipeline", 800, 40000, ["fractions", "figures", "long", "numbering", "yearly", "balances", "price", "sums", "status-engine", "status-crash"]), S("cli", 30, 1000, ["exit", "detail", "model"])], "rule": PIPE_RULE + "; " + CLI_RULE,
             "assumptions": ["hypothesis LocalDatesMonotone (F6)"],
             "technique": "Lean 4 proof: prefix theorem on the greedy spec (later lots/events cannot change earlier fractions) carried to the engine by refinement; correspondence on (history, truncated history) pairs",
             "text": "Theorem earlier_fractions_unchanged (runS_prefix); oracle compares the to-date-limited run with the run on the truncated history, on the real code.",
